@@ -18,6 +18,7 @@ EXPLANATION = (
     "wrapped destination is invoked only in the reader, exactly once per dequeued item with that item, inside "
     "a handler catching at least Exception whose every exit continues the loop; the reader is the target of "
     "the one thread created and started in startService before the writer is registered."
+    "  The queue is created per instance: neither a class attribute nor a parameter default evaluated at definition time."
 )
 RULE = ("obligation = rule instance bound to a loop exit / queue operation / call site of ThreadedWriter; "
         "non-trivial = CFG paths examined")
@@ -73,6 +74,19 @@ def rule_queue(chk):
                 chk.bad("C19.queue", "ThreadedWriter.%s:unbounded-FIFO" % a, chk.where(init.cls),
                         "the queue is a class-level attribute shared by every ThreadedWriter: a stop sentinel or message of one writer is consumed by another's reader")
                 raise AnalysisError("ThreadedWriter queue is not per instance")
+        # self.<x> = <parameter whose default is queue.X()>: the default is evaluated once, when the class is defined
+        a = init.node.args
+        pos = a.posonlyargs + a.args
+        defaults = dict(zip([x.arg for x in pos[len(pos) - len(a.defaults):]], a.defaults))
+        defaults.update({k.arg: d for k, d in zip(a.kwonlyargs, a.kw_defaults) if d is not None})
+        for n in iter_own_nodes(init.node):
+            if isinstance(n, ast.Assign) and isinstance(n.value, ast.Name) and n.value.id in defaults and any(common.is_self_attr(t) for t in n.targets):
+                d = defaults[n.value.id]
+                if isinstance(d, ast.Call) and any(t.kind == "ext" and str(t.ref).startswith("queue.") for t in ctx.cg.typer.resolve_call_in(init.module, None, d)):
+                    chk.bad("C19.queue", "ThreadedWriter.%s:unbounded-FIFO" % [t.attr for t in n.targets if common.is_self_attr(t)][0], chk.where(init, n.lineno),
+                            "the queue is the parameter default `%s=%s`, evaluated once when the class is defined: every ThreadedWriter built without that argument shares one queue, "
+                            "so one writer's reader thread consumes another writer's messages and stop sentinel" % (n.value.id, unparse(d)))
+                    raise AnalysisError("ThreadedWriter queue is not per instance")
     chk.need(qa is not None, "ThreadedWriter.__init__: no queue attribute created from the queue module")
     bounded = False
     if qtype == "queue.Queue":
@@ -86,7 +100,7 @@ def rule_queue(chk):
             good="created once in __init__ from %s()" % qtype,
             fail="the queue is %s%s%s: order is not FIFO / producers can block / it is replaced later" % (qtype, " (bounded)" if bounded else "", "" if writers == [init] else ", reassigned in %s" % [w.fq for w in writers]))
     call = _tw(chk, "__call__")
-    dparam = [a.arg for a in call.node.args.args][1]
+    dparam = call.pos_params[1]
     calls = [n for n in iter_own_nodes(call.node) if isinstance(n, ast.Call)]
     ok = len(calls) == 1 and isinstance(calls[0].func, ast.Attribute) and calls[0].func.attr in ("put", "put_nowait") and common.is_self_attr(calls[0].func.value, qa) \
         and len(calls[0].args) == 1 and isinstance(calls[0].args[0], ast.Name) and calls[0].args[0].id == dparam and not calls[0].keywords \
@@ -181,7 +195,7 @@ def rule_thread_and_contain(chk, qa, itemvars):
     init = _tw(chk, "__init__")
     dest_attr = None
     for n in iter_own_nodes(init.node):
-        if isinstance(n, ast.Assign) and isinstance(n.value, ast.Name) and n.value.id == [a.arg for a in init.node.args.args][1]:
+        if isinstance(n, ast.Assign) and isinstance(n.value, ast.Name) and n.value.id == init.pos_params[1]:
             for t in n.targets:
                 if common.is_self_attr(t):
                     dest_attr = t.attr
